@@ -42,7 +42,7 @@ def run(prog: Program, rep, thorough: bool) -> None:
     A.reset()
     rep.rule('C14.R1', 'no effect on the table / points passed in', 3)
     rep.rule('C14.R2', 'sorted before interpolation; effective-BC identity', 4)
-    rep.rule('C14.R3', 'interpolation clamps at the ends and is the straight line inside a bracket', 2)
+    rep.rule('C14.R3', 'every appended value is the clamped piecewise-linear value (proof per append site)', 1)
     dm = prog.module(C.M_DM)
     eng = Effects(prog)
     rep.extra['effect_fixpoint_rounds'] = eng.rounds
